@@ -7,16 +7,19 @@
 package vos
 
 import (
+	"io"
 	"io/fs"
 	"os"
+	"strings"
+	"syscall"
 
 	"golang.org/x/telemetry/internal/verifh/shim/vsched"
 )
 
 type (
-	FileInfo = os.FileInfo
-	FileMode = os.FileMode
-	DirEntry = os.DirEntry
+	FileInfo  = os.FileInfo
+	FileMode  = os.FileMode
+	DirEntry  = os.DirEntry
 	PathError = os.PathError
 )
 
@@ -39,10 +42,10 @@ const (
 	O_TRUNC  = os.O_TRUNC
 )
 
-func Getpid() int                   { return os.Getpid() }
-func Getenv(k string) string        { return os.Getenv(k) }
-func IsExist(err error) bool        { return os.IsExist(err) }
-func IsNotExist(err error) bool     { return os.IsNotExist(err) }
+func Getpid() int                    { return os.Getpid() }
+func Getenv(k string) string         { return os.Getenv(k) }
+func IsExist(err error) bool         { return os.IsExist(err) }
+func IsNotExist(err error) bool      { return os.IsNotExist(err) }
 func UserConfigDir() (string, error) { return os.UserConfigDir() }
 
 // Fault, when non-nil, is asked before every call (after the yield); a
@@ -52,7 +55,86 @@ var Fault func(op, path string) error
 // Calls counts the instrumented calls performed (all threads).
 var Calls int
 
+// ---- fault plans (C05): in plan mode every call is a numbered fault point,
+// File.Close included; the plan maps call indices to a kind ----
+const (
+	KOk = iota
+	KENOENT
+	KEACCES
+	KENOSPC
+	KEIO
+	KShort // short write (File.Write, WriteFile); no fault for other calls
+	K4xx   // server answers (http.Post); no fault for other calls
+	K5xx
+	NKinds
+)
+
+var KindName = []string{"ok", "ENOENT", "EACCES", "ENOSPC", "EIO", "short", "4xx", "5xx"}
+
+var (
+	PlanMode bool
+	plan     map[int]int
+	Log      []string // "<op> <path>" of each fault point
+	Fired    []int
+	Budget   = 1 << 30
+)
+
+// HangError is the panic value raised when a run exceeds its call budget (or,
+// from vsyncu, blocks for ever on a mutex).
+type HangError struct{ Calls int }
+
+// Hung is set when the run blocked for ever (vsyncu); reset by Reset.
+var Hung bool
+
+// Reset switches plan mode on with the given plan (nil: no faults) and budget.
+func Reset(p map[int]int, budget int) {
+	PlanMode, plan, Calls, Log, Fired, Budget = true, p, 0, nil, nil, budget
+	Hung = false
+}
+
+// Off leaves plan mode.
+func Off() { PlanMode, plan = false, nil }
+
+// Point is one fault point in plan mode: it returns the planned kind.
+func Point(op, path string) int {
+	i := Calls
+	Calls++
+	Log = append(Log, op+" "+path)
+	if Calls > Budget {
+		panic(HangError{Calls})
+	}
+	k := plan[i]
+	if k != KOk {
+		Fired = append(Fired, i)
+	}
+	return k
+}
+
+func errOf(kind int, op, path string) error {
+	var e error
+	switch kind {
+	case KENOENT:
+		e = syscall.ENOENT
+	case KEACCES:
+		e = syscall.EACCES
+	case KENOSPC:
+		e = syscall.ENOSPC
+	case KEIO:
+		e = syscall.EIO
+	default:
+		return nil
+	}
+	return &fs.PathError{Op: op, Path: path, Err: e}
+}
+
+// short reports whether the last point asked for a short write.
+var lastKind int
+
 func pre(op, path string) error {
+	if PlanMode {
+		lastKind = Point(op, path)
+		return errOf(lastKind, strings.ToLower(op), path)
+	}
 	vsched.Yield(op+" "+path, 0)
 	Calls++
 	if Fault != nil {
@@ -70,7 +152,24 @@ func (f *File) Write(b []byte) (int, error) {
 	if err := pre("Write", f.Name()); err != nil {
 		return 0, err
 	}
+	if PlanMode && lastKind == KShort {
+		n, _ := f.File.Write(b[:len(b)/2])
+		return n, &fs.PathError{Op: "write", Path: f.Name(), Err: io.ErrShortWrite}
+	}
 	return f.File.Write(b)
+}
+
+// Close is a fault point in plan mode only (the file is closed either way).
+func (f *File) Close() error {
+	if PlanMode {
+		k := Point("Close", f.Name())
+		err := f.File.Close()
+		if e := errOf(k, "close", f.Name()); e != nil {
+			return e
+		}
+		return err
+	}
+	return f.File.Close()
 }
 
 func OpenFile(name string, flag int, perm FileMode) (*File, error) {
@@ -101,6 +200,10 @@ func ReadFile(name string) ([]byte, error) {
 func WriteFile(name string, data []byte, perm FileMode) error {
 	if err := pre("WriteFile", name); err != nil {
 		return err
+	}
+	if PlanMode && lastKind == KShort {
+		os.WriteFile(name, data[:len(data)/2], perm)
+		return &fs.PathError{Op: "write", Path: name, Err: io.ErrShortWrite}
 	}
 	return os.WriteFile(name, data, perm)
 }
